@@ -190,6 +190,10 @@ func buildLayout(sc *Scn, runDirPrefix string) intoto.Layout {
 		if sc.CertStep == i+1 && certCtx != nil {
 			s.CertificateConstraints = []intoto.CertificateConstraint{{CommonName: "alice", Roots: []string{"*"},
 				DNSNames: []string{}, Emails: []string{}, Organizations: []string{}, URIs: []string{}}}
+			if sc.Defect == "mixed-cert-key-marker-constraint" {
+				s.CertificateConstraints = append(s.CertificateConstraints, intoto.CertificateConstraint{CommonName: "{CN}", Roots: []string{"*"},
+					DNSNames: []string{"{CN}.example.org"}, Emails: []string{}, Organizations: []string{"{ORG}"}, URIs: []string{"spiffe://{ORG}/{CN}"}})
+			}
 			if sc.CertUnsorted {
 				// several values per attribute, deliberately not in sorted order (in the constraint and in the certificate)
 				s.CertificateConstraints[0].Organizations = []string{"zeta-org", "alpha-org", "mid-org"}
@@ -528,7 +532,8 @@ var defects = map[string][]string{
 		"alter-pubkeys", "drop-signature", "corrupt-signature", "dup-signature", "reorder-signatures", "forged-keyid", "extra-foreign-signature",
 		"verifier-plus-one", "verifier-minus-one", "verifier-empty", "signed-by-others", "link-instead-of-layout",
 		"dup-signature-missing-key", "keyid-collision-history",
-		"case-variant-member-evil-first-dsse", "case-variant-member-evil-last-dsse", "case-variant-member-evil-first-legacy", "case-variant-member-evil-last-legacy"},
+		"case-variant-member-evil-first-dsse", "case-variant-member-evil-last-dsse", "case-variant-member-evil-first-legacy", "case-variant-member-evil-last-legacy",
+		"verifier-key-malformed-legacy", "verifier-key-malformed-dsse", "alter-payload-strip-sig-padding"},
 	"c05": {"none", "disagree-product-digest", "disagree-product-path", "disagree-material-digest", "disagree-algorithm", "disagree-algorithm-material",
 		"junk-uncounted-badsig", "junk-uncounted-unauthorised", "extra-agreeing-link", "byproducts-differ",
 		"threshold1-disagree-product-digest", "threshold1-disagree-algorithm", "threshold1-agree",
@@ -539,7 +544,7 @@ var defects = map[string][]string{
 	"c06": {"sub-expired", "sub-undated", "sub-rfc3339-offset", "none", "expired-long", "expired-2s", "future-1h", "garbage", "empty", "rfc3339-offset", "date-only", "year-9999", "fraction", "lowercase"},
 	"c08": {"sub-insp-named-like-first-step", "sub-insp-named-like-last-step", "sub-defective-beside-good-link", "sub-ok", "sub-ok", "sub-badsig", "sub-expired", "sub-missing-link", "sub-rule-violation", "sub-unauthorised", "sub-nested", "sub-nested-defect", "sub-summary-mismatch"},
 	"c10": {"history-same-params", "history-diff-params", "history-no-params", "history-mixed", "mixed-cert-key", "mixed-cert-key", "mixed-cert-key-unsorted", "summary-byproducts", "direct-unclean",
-		"history-multi-alg", "history-multi-alg-mismatch", "history-whitespace-rule", "history-param-value-has-marker"},
+		"history-multi-alg", "history-multi-alg-mismatch", "history-whitespace-rule", "history-param-value-has-marker", "mixed-cert-key-marker-constraint"},
 	"c09": {"product-added-ignorable-name-0", "product-added-ignorable-name-1", "product-added-ignorable-name-2", "product-added-ignorable-name-3",
 		"product-added-ignorable-name-4", "product-added-ignorable-name-5", "product-added-ignorable-name-6", "product-added-ignorable-name-7",
 		"product-added-ignorable-name-8", "product-added-ignorable-name-9", "product-added-ignorable-name-10", "case-variant-rule-earlier", "product-modified-backslash-decoy", "sha512-chain-product-modified", "escaped-pattern-product-modified", "escaped-pattern-none", "insp-rewrite-same-mtime", "product-all-removed", "require-after-consume", "none", "insp-fail", "insp-fail-255", "insp-missing", "insp-empty", "product-modified", "product-added", "product-removed",
@@ -606,6 +611,19 @@ func genScenario(r *lib.Rng, focus string, idx int) *Scn {
 			sc.Wrapper = d[strings.LastIndex(d, "-")+1:]
 			sc.Expect = ""
 			sc.ForbidLog = []string{"EVIL"}
+		case "verifier-key-malformed-legacy", "verifier-key-malformed-dsse":
+			// the only key the verifier supplies is unusable (an ed25519 public key one byte short); the layout carries a
+			// signature entry under that key's id: an unusable key verifies nothing
+			sc.Wrapper = d[strings.LastIndex(d, "-")+1:]
+			sc.Owners = []string{"ed1"}
+			sc.Verifiers = nil
+			sc.Expect = "reject"
+		case "alter-payload-strip-sig-padding":
+			// DSSE: the payload is altered and the signature's base64 padding is stripped (no longer decodable)
+			sc.Wrapper = "dsse"
+			sc.Owners = []string{"ed1"}
+			sc.Verifiers = []string{"ed1"}
+			sc.Expect = "reject"
 		case "verifier-plus-one":
 			for _, p := range pool {
 				if !contains(sc.Owners, p) {
@@ -857,8 +875,13 @@ func genScenario(r *lib.Rng, focus string, idx int) *Scn {
 		case "history-mixed":
 			sc.Params = good
 			sc.History = []map[string]string{bad, good, {"OUT": "out", "SRC": "src", "bad name": "x"}, good}
-		case "mixed-cert-key", "mixed-cert-key-unsorted":
+		case "mixed-cert-key", "mixed-cert-key-unsorted", "mixed-cert-key-marker-constraint":
 			sc.CertUnsorted = d == "mixed-cert-key-unsorted"
+			if d == "mixed-cert-key-marker-constraint" {
+				// a second certificate constraint whose values LOOK like markers: constraints are not subject to
+				// substitution, and nothing of the caller's layout may change
+				sc.Params = map[string]string{"OUT": "out", "SRC": "src", "CN": "nobody", "ORG": "none"}
+			}
 			// one step authorises a key AND a certificate constraint, threshold 2, one link each
 			i := r.Intn(len(sc.Steps))
 			st := &sc.Steps[i]
@@ -1070,6 +1093,12 @@ func materialise(sc *Scn, root string, r *lib.Rng) *world {
 	for _, v := range sc.Verifiers {
 		k := pk(v).Pub
 		w.verifierKeys[k.KeyID] = k
+	}
+	if strings.HasPrefix(sc.Defect, "verifier-key-malformed-") {
+		pub := pk("ed1").Pub
+		bad := intoto.Key{KeyID: malformedKeyID, KeyIDHashAlgorithms: pub.KeyIDHashAlgorithms, KeyType: pub.KeyType, Scheme: pub.Scheme,
+			KeyVal: intoto.KeyVal{Public: pub.KeyVal.Public[:len(pub.KeyVal.Public)-2]}}
+		w.verifierKeys = map[string]intoto.Key{malformedKeyID: bad}
 	}
 	// final product directory
 	final := copyFiles(w.final)
@@ -1515,6 +1544,19 @@ func applyLayoutDefects(sc *Scn, w *world, r *lib.Rng) {
 			must(os.WriteFile(p, raw, 0o644))
 			sc.DefectArg = "refused-by-loader: " + err.Error()
 		}
+	case "verifier-key-malformed-legacy", "verifier-key-malformed-dsse":
+		editJSON(p, func(wr, pl map[string]interface{}) {
+			s0 := sigs(wr)[0].(map[string]interface{})
+			wr["signatures"] = append(sigs(wr), map[string]interface{}{"keyid": malformedKeyID, "sig": s0["sig"]})
+		})
+	case "alter-payload-strip-sig-padding":
+		editJSON(p, func(wr, pl map[string]interface{}) {
+			pl["readme"] = "altered after signing"
+			for _, sg := range sigs(wr) {
+				m := sg.(map[string]interface{})
+				m["sig"] = strings.TrimRight(m["sig"].(string), "=")
+			}
+		})
 	case "reorder-signatures":
 		editJSON(p, func(wr, pl map[string]interface{}) {
 			s := sigs(wr)
@@ -2078,6 +2120,20 @@ func main() {
 			w := materialise(sc, root, rr)
 			t1 := time.Now()
 			o1 := runImpl(sc, w)
+			// ... and once the way a command line front end calls it (no step name), through the other entry point too
+			extra1 := ""
+			func() {
+				defer func() { recover() }()
+				cwd, _ := os.Getwd()
+				defer os.Chdir(cwd)
+				os.Chdir(w.prodDir)
+				cleanInspectionLinks(w)
+				if lmx, err := intoto.LoadMetadata(w.layoutPath); err == nil {
+					if _, err := intoto.InTotoVerify(lmx, w.verifierKeys, w.linkDir, "", sc.Params, nil, false); err != nil {
+						extra1 = "first verification without a step name rejected: " + err.Error()
+					}
+				}
+			}()
 			done1 := time.Now()
 			cleanInspectionLinks(w)
 			m1 := coqModelAt(sc, w, sc.Params, t1.UnixNano())
@@ -2085,6 +2141,27 @@ func main() {
 			t2 := time.Now()
 			o2 := runImpl(sc, w)
 			cleanInspectionLinks(w)
+			// after the expiry every entry point must reject, whatever was verified before in this process
+			extra2 := ""
+			func() {
+				defer func() { recover() }()
+				cwd, _ := os.Getwd()
+				defer os.Chdir(cwd)
+				os.Chdir(w.root)
+				os.Remove(logPath)
+				if lmx, err := intoto.LoadMetadata(w.layoutPath); err == nil {
+					if _, err := intoto.InTotoVerifyWithDirectory(lmx, w.verifierKeys, w.linkDir, w.prodDir, "summary-name", sc.Params, nil, false); err == nil {
+						extra2 = "InTotoVerifyWithDirectory accepted the layout after its expiry"
+					} else if len(readLog()) > 0 {
+						extra2 = "InTotoVerifyWithDirectory ran an inspection of an expired layout"
+					}
+					os.Chdir(w.prodDir)
+					if _, err := intoto.InTotoVerify(lmx, w.verifierKeys, w.linkDir, "", sc.Params, nil, false); err == nil && extra2 == "" {
+						extra2 = "InTotoVerify (no step name) accepted the layout after its expiry"
+					}
+				}
+				cleanInspectionLinks(w)
+			}()
 			m2 := coqModelAt(sc, w, sc.Params, t2.UnixNano())
 			impl := o1.String() + ";" + o2.String()
 			oracle := impl
@@ -2093,6 +2170,8 @@ func main() {
 				// the machine was too slow: the first verification did not finish clearly before the expiry, so its verdict
 				// says nothing (and the model, evaluated at the start time, need not agree): the scenario is dropped from this run
 				fmt.Fprintln(os.Stderr, "e2e: expires-between-verifications dropped: first verification took", done1.Sub(t1))
+			} else if extra1 != "" || extra2 != "" {
+				oracle = "VIOLATES: layout expiring at " + sc.Expires + ": " + extra1 + extra2
 			} else if o1.Verdict != "accept" || o2.Verdict != "reject" || len(o2.Log) > 0 {
 				oracle = fmt.Sprintf("VIOLATES: layout expiring at %s must be accepted at %s and rejected (no inspection run) at %s; got %s then %s",
 					sc.Expires, t1.UTC().Format(time.RFC3339), t2.UTC().Format(time.RFC3339), o1.Verdict, o2.Verdict)
@@ -2203,6 +2282,8 @@ func collisionFirstUse(sc *Scn, rr *lib.Rng, work, focus, wrapper, order string)
 	os.RemoveAll(root)
 	return lib.Case{Klass: sc.Klass, Input: lib.MustJSON(sc), Impl: impl, Oracle: oracle, CoqModel: "(join [59] " + lib.CoqList(models, "str") + ")"}
 }
+
+const malformedKeyID = "0badc0de0badc0de0badc0de0badc0de0badc0de0badc0de0badc0de0badc0de"
 
 var noPrime bool // keyid-collision-history: do not use the mislabelled key object inside materialise
 
